@@ -102,6 +102,7 @@ type Interp struct {
 	FPContracts bool
 	fpInt    map[*Term]*Term
 	fpDiv    map[*Term]map[uint64]*Term
+	fpLazy   map[*Term]*Term
 	gsm7Text map[*Object]view
 	atoiMap  map[*Term][]*Term
 	fmtTimeVals map[*Object]*Term
@@ -1235,6 +1236,12 @@ func (it *Interp) binop(op token.Token, a, b Value, ta, tb types.Type) Value {
 			}
 		}
 		if x.S.K == SFP {
+			if len(it.fpLazy) > 0 {
+				if _, isq := it.fpDiv[x]; !(isq && op == token.QUO && y.IsConst()) {
+					it.fpForce(x)
+				}
+				it.fpForce(y)
+			}
 			switch op {
 			case token.ADD:
 				return st.fbin(OFAdd, x, y)
